@@ -253,9 +253,27 @@ def spec_match(spec, impl):
             it = it[:len(st)]
         if len(st) != len(it):
             continue
-        if all(a == "*" or a == b for a, b in zip(st, it)):
+        if all(_tok_match(a, b) for a, b in zip(st, it)):
             return True
     return False
+
+
+def _tok_match(pat, tok):
+    """`*` alone matches any token; inside a token it matches any run of characters."""
+    if pat == "*" or pat == tok:
+        return True
+    if "*" not in pat:
+        return False
+    parts = pat.split("*")
+    if not tok.startswith(parts[0]) or not tok.endswith(parts[-1]):
+        return False
+    pos = len(parts[0])
+    for mid in parts[1:-1]:
+        i = tok.find(mid, pos)
+        if i < 0:
+            return False
+        pos = i + len(mid)
+    return pos <= len(tok) - len(parts[-1])
 
 
 # ------------------------------------------------------------------ findings
